@@ -638,4 +638,32 @@ def monC06o : ObsMonitor Obs M6o where
                       | x => x }
     | _ => some m
 
+/-! ## C07, "removed ⇒ cancelled", in the form that is proved for every model trace (`C07c_obs`)
+
+The product of `monC07a` (which run belongs to which key) and `monC06o` (what is known about the key
+set), with one more check: when no call is in progress and the key of a run is known to be out of the
+set (removed at once, or removed with a delay and the delay has expired by a quiescence point), or the
+context is known to be cleared, a probe of the run's context answers "cancelled". -/
+
+structure M7c where
+  a : M7a := {}
+  o : M6o := {}
+
+/-- the probe shows a live context although the routine's key is known to be gone -/
+def M7c.probeBad (m : M7c) : Obs → Bool
+  | .probe j c =>
+    match m.a.runs[j]? with
+    | some (k, _, _) => m.o.pending.isEmpty && (m.o.st k == .absent || m.o.hasCtx == some false) && !c
+    | none => false
+  | _ => false
+
+def monC07c : ObsMonitor Obs M7c where
+  init := {}
+  step := fun m ob =>
+    if m.probeBad ob then none
+    else
+      match monC07a.step m.a ob, monC06o.step m.o ob with
+      | some a, some o => some { a := a, o := o }
+      | _, _ => none
+
 end UtilModel.Keyed
